@@ -337,6 +337,15 @@ func checkApplyUpdate(c *vs.Case, tr c05Triple) error {
 		meta["deletionTimestamp"] = "2020-01-02T00:00:00Z"
 		meta["deletionGracePeriodSeconds"] = int64(0)
 	}
+	if c.Prob(1, 6) {
+		// explicit nulls where a system field would be (what a Go client that marshals a zero time leaves behind)
+		for _, f := range []string{"selfLink", "deletionTimestamp", "deletionGracePeriodSeconds"} {
+			if _, set := meta[f]; !set && c.Bool() {
+				meta[f] = nil
+			}
+		}
+		c.Class("observed-system-field-null")
+	}
 	if c.Prob(1, 3) {
 		meta["labels"] = map[string]any{"app": "x", "foreign": "y"}
 	}
@@ -362,12 +371,14 @@ func checkApplyUpdate(c *vs.Case, tr c05Triple) error {
 		meta["annotations"] = ann
 	}
 	orig["metadata"] = meta
-	statusMode := c.Int(3)
+	statusMode := c.Int(4)
 	switch statusMode {
 	case 0:
 		delete(orig, "status")
 	case 1:
 		orig["status"] = map[string]any{"ready": true, "observedGeneration": int64(3)}
+	case 3:
+		orig["status"] = nil // an explicit null
 	default:
 		orig["status"] = "weird-scalar-status"
 	}
